@@ -1,5 +1,4 @@
-//go:build verif
-
+//go:build verif && verif_c08
 // Verification hooks for property C08 (formula evaluator): the un-rendered
 // result of the evaluator, exactly as CalcCellValue obtains it, before the
 // 15-significant-digit / number-format rendering. Compiled only with
